@@ -66,7 +66,7 @@ func modelInts(out string) []int {
 	return vals
 }
 
-func writeReplay(e *Engine, pc *PropConfig, o *Obligation, header string, dir string) (string, bool) {
+func writeReplay(e *Engine, pc *PropConfig, o *Obligation, header *Universe, dir string) (string, bool) {
 	os.MkdirAll(dir, 0o755)
 	path := filepath.Join(dir, sanitize(o.Name)+".json")
 	rf := &ReplayFile{Property: pc.ID, Obligation: o.Name, Function: o.Func, Kind: o.Kind, Pos: o.Pos, Statement: o.Desc,
